@@ -313,7 +313,7 @@ func Explore(names []string, mk func() []func(), maxPreempt, horizon int, limit 
 		for len(stack) > 0 {
 			it := stack[len(stack)-1]
 			stack = stack[:len(stack)-1]
-			res := Execute(names, mk(), it.prefix, horizon, 20*time.Second)
+			res := Execute(names, mk(), it.prefix, horizon, 90*time.Second)
 			execs++
 			if bound == 0 || res.Preempt == bound {
 				if !check(res) {
